@@ -14,6 +14,40 @@ use crate::config;
 const FILE_HEADER_MAGIC: [u8; 4] = [0x50, 0x4b, 0x03, 0x04];
 const CENTRAL_HEADER_FILE_MAGIC: [u8; 4] = [0x50, 0x4b, 0x01, 0x02];
 
+/// A writer that only keeps track of the position and the length of what
+/// would have been written. Used in --check mode, where nothing is written.
+#[derive(Default)]
+struct CountingWriter {
+    pos: u64,
+    len: u64,
+}
+
+impl Write for CountingWriter {
+    fn write(&mut self, buf: &[u8]) -> std::io::Result<usize> {
+        self.pos += buf.len() as u64;
+        self.len = self.len.max(self.pos);
+        Ok(buf.len())
+    }
+
+    fn flush(&mut self) -> std::io::Result<()> {
+        Ok(())
+    }
+}
+
+impl Seek for CountingWriter {
+    fn seek(&mut self, pos: SeekFrom) -> std::io::Result<u64> {
+        let new = match pos {
+            SeekFrom::Start(n) => Some(n),
+            SeekFrom::Current(d) => self.pos.checked_add_signed(d),
+            SeekFrom::End(d) => self.len.checked_add_signed(d),
+        };
+        match new {
+            Some(n) => { self.pos = n; Ok(n) }
+            None => Err(std::io::Error::from(std::io::ErrorKind::InvalidInput)),
+        }
+    }
+}
+
 pub struct Zip {
     // Share the implementation for .zip and .jar, but define two
     // separate handlers which can be enabled independently.
@@ -69,6 +103,31 @@ impl super::Processor for Zip {
         let mut have_mod = false;
         let (mut io, input) = InputOutputHelper::open(input_path, self.config.check, true)?;
         let mut input = zip::ZipArchive::new(input)?;
+
+        if self.config.check {
+            // We must not write anything, and there is no output file to patch:
+            // establish from the input whether a real run would modify the file.
+            let mut output = zip::ZipWriter::new(CountingWriter::default());
+
+            for i in 0..input.len() {
+                let file = input.by_index(i)?;
+                if let (Some(epoch), Ok(mtime)) = (self.unix_epoch, file.last_modified().to_time()) {
+                    have_mod |= mtime > epoch;
+                }
+                output.raw_copy_file(file)?;
+            }
+
+            let output = output.finish()?;
+
+            if !have_mod &&
+                self.unix_epoch.is_some() &&
+                io.input_metadata.modified()? > self.unix_epoch.unwrap() {
+                    // See the comment at the end of this function.
+                    have_mod = output.len != io.input_metadata.len();
+                }
+
+            return io.finalize(have_mod);
+        }
 
         io.open_output()?;
 
